@@ -11,6 +11,7 @@ def run(ctx):
     _p12e(ctx)
     _p12f(ctx)
     _p12g(ctx)
+    _p12h(ctx)
     _p11g(ctx)
     _p10g(ctx)
     _w10c(ctx)
@@ -163,6 +164,43 @@ def _p12g(ctx):
         ctx.add('P12g', 'T-MUST', r, ok, 'when the epoch bit is seen the handle announces the epoch with its own token' if ok else
                 '%s does not announce the epoch (update_token with its own token) on every path where it saw the epoch bit: its stale token blocks every reclamation cycle' % short_fn(r),
                 sub='announce')
+
+
+def _p12h(ctx):
+    """MemoryManager::free must not be entered with the manager lock held: its try_lock of that very
+    mutex would always fail, so neither try_freeing nor start_free could ever run from that call"""
+    F = ctx.F
+    n = 0
+    for name in sorted(F.fns):
+        f = F.fns[name]
+        if f['kind'] == 'Closure':
+            continue
+        calls_free = any(b['term']['k'] == 'call' and re.search(r'memory::MemoryManager::free$', b['term'].get('fn') or '') for b in f['blocks'])
+        if not calls_free:
+            continue
+        g = ctx.graph(name, 'MPMC')
+        x = g.x
+        frees = [c for c in x.inlined(r'memory::MemoryManager::free$') if g.nodes[c].inst == g.root_inst]
+        locks = [l for l in x.ext_calls(r'Mutex(::<.*>)?::lock$') if any(p_.endswith('MemoryManager.mem_manager') for p_ in g.locpaths(g.call_args(l)[0]))]
+        for c in frees:
+            n += 1
+            held = []
+            for l in locks:
+                drops = set()
+                for nd in g.nodes:
+                    if nd.id in g.live() and nd.kind == 'block' and nd.term['k'] == 'drop' and 'Guard' in nd.term['dty']['s'] and \
+                            l in x.calls_in(g.ev_place(nd.inst, nd.term['pl'], at=(nd.id, None)), deep=True):
+                        drops.add(nd.id)
+                for nd in x.ext_calls(r'mem::drop$'):
+                    if l in x.calls_in(g.call_args(nd)[0], deep=True):
+                        drops.add(nd)
+                if x.reaches(l, c, blocked=drops):
+                    held.append(x.describe(l))
+            ctx.add('P12h', 'T-ORD', name, not held, 'MemoryManager::free is called without the manager lock held' if not held else
+                    '%s calls MemoryManager::free while still holding the manager lock (%s): inside free both try_lock attempts on that mutex fail, so a reclamation cycle can neither complete nor start from this call; '
+                    'with pure handle clone/drop churn nothing else calls free, and the retired tokens pile up without bound' % (short_fn(name), held[0]),
+                    where=g.where(c), sub='free-under-lock.bb%d' % g.nodes[c].bb)
+    ctx.floor('P12h', n, 4, 'call sites of MemoryManager::free')
 
 
 def _p11g(ctx):
